@@ -221,7 +221,8 @@ func hugeCase(c *ev.Case) {
 
 func main() {
 	r := ev.New("C17")
-	r.Rule("one case = one generated string (valid UTF-8 assembled from 1/2/3/4-byte runes incl. the first/last code point of each width and U+FFFD; or an arbitrary byte string with invalid bytes, truncated/overlong/surrogate sequences, byte-sliced or damaged valid strings; or the idx-th string over a 9-token alphabet; or a snake_case identifier) on which every helper is called over the whole argument grid 0..len+3 (-1 for Sub's length; boundary values plus a sample for strings longer than 12 runes); distinct = distinct string; non-trivial = valid string with >= 2 runes of >= 2 different byte widths, or a string that is not valid UTF-8, or an identifier with >= 2 segments")
+	r.Rule("one case = one generated string (valid UTF-8 assembled from 1/2/3/4-byte runes incl. the first/last code point of each width and U+FFFD; or an arbitrary byte string with invalid bytes, truncated/overlong/surrogate sequences, byte-sliced or damaged valid strings; or the idx-th string over a 9-token alphabet; or a snake_case identifier) on which every helper is called over the whole argument grid 0..len+3 (-1 for Sub's length; boundary values plus a sample for strings longer than 12 runes); distinct = distinct string; non-trivial = valid string with >= 2 runes of >= 2 different byte widths, or a string that is not valid UTF-8, or an identifier with >= 2 segments; added histories (strength.go): kept and kept-serial (one case at a time) = 2-4 strings (independent, differing in one rune, of one byte length, carved out of one arena, or a string with its own prefix / suffix / inner part) used alternately for 12-48 calls whose results are all judged again after the last call and a churn of same-sized calls, inputs compared with a private copy, masks that are (part of) the input or contain U+FFFD; callback = RemoveRunes predicates that panic on a chosen rune followed by healthy calls, and predicates that call every helper (RemoveRunes included) while the outer call runs; big = strings of 8 bytes to 192 KiB (1.5 MiB thorough) with multi-byte runes or invalid bytes across the multiples of every power of two, arguments at those rune indices and at MaxInt; long-ident = identifiers of 60-66000 bytes whose camel form is not longer and whose snake form is longer than a power of two; cold-start = one fresh process per case whose first golib call is each helper in turn")
+	r.Assume("a string is a value: a result that was equal to its definition when returned is judged against the same definition again at the end of the case, and an argument string must read the same after the calls; a predicate's own panic travelling back to the caller of RemoveRunes is not judged, the calls after it are; a predicate that calls strz helpers is an ordinary pure predicate")
 	r.Assume("unicode/utf8 (ValidString, DecodeRuneInString, RuneLen) and the Go []rune / strings.Builder.WriteRune conversions are correct; the definitions are evaluated on the decoded rune slice and its byte offsets")
 	r.Assume("for strings that are not valid UTF-8 only 'no panic' is judged; UcFirst/LcFirst/SnakeToCamelCase/CamelCaseToSnake are judged for 'no panic' and for the round trip over [a-z][a-z0-9]*(_[a-z][a-z0-9]*)* only")
 	r.Assume("an empty mask is neither 'one mask rune' nor 'a multi-rune mask': for it only the kept first/last runes and UTF-8 validity are judged")
@@ -235,6 +236,16 @@ func main() {
 	r.Cases("hostile", r.N(500000, 12000000), ev.Opt{HangViolation: true}, hostileCase)
 	r.Cases("roundtrip", r.N(150000, 5000000), ev.Opt{HangViolation: true}, roundtripCase)
 	r.Cases("hugearg", r.N(50000, 1500000), ev.Opt{HangViolation: true}, hugeCase)
+
+	// added histories (strength.go)
+	r.Cases("kept", r.N(40000, 1500000), ev.Opt{HangViolation: true}, keptCase)
+	// the same histories one case at a time: nothing else in the process calls golib in between
+	r.Cases("kept-serial", r.N(8000, 200000), ev.Opt{HangViolation: true, Serial: true}, keptCase)
+	r.Cases("callback", r.N(40000, 1500000), ev.Opt{HangViolation: true, MaxCaseSeconds: 25}, callbackCase)
+	r.Cases("big", r.N(1600, 30000), ev.Opt{HangViolation: true}, bigCase)
+	r.Cases("long-ident", r.N(1600, 40000), ev.Opt{HangViolation: true}, longIdentCase)
+	cold := r.N(24, 48)
+	r.CasesProc("cold-start", cold, ev.Opt{Procs: cold, HangViolation: true}, coldCase)
 
 	r.Require("results_compared_with_rune_model", 1000000)
 	r.Require("calls_Sub", 1000000)
@@ -259,5 +270,38 @@ func main() {
 	r.Require("roundtrip_single_letter_segment", 5000)
 	r.Require("hugearg_calls", 100000)
 	r.Require("hugearg_mask_both_huge", 10000)
+	r.Require("kept_cases", 20000)
+	r.Require("kept_views_of_one_string_cases", 3000)
+	r.Require("kept_same_call_on_two_strings_in_a_row", 100000)
+	r.Require("kept_results_rejudged", 500000)
+	r.Require("kept_inputs_compared_with_copy", 50000)
+	r.Require("kept_camel_forms_converted_later", 20000)
+	r.Require("kept_mask_is_input_or_part_of_it", 20000)
+	r.Require("kept_arena_cases", 5000)
+	r.Require("kept_sibling_cases", 2000)
+	r.Require("kept_same_byte_length_cases", 5000)
+	r.Require("mask_is_single_U+FFFD", 5000)
+	r.Require("mask_multi_with_U+FFFD", 5000)
+	r.Require("callback_cases", 20000)
+	r.Require("callback_predicate_panics", 20000)
+	r.Require("callback_panic_after_first_removal", 3000)
+	r.Require("callback_panic_before_first_removal", 3000)
+	r.Require("callback_healthy_removerunes_after_panic", 100000)
+	r.Require("callback_reentrant_predicates", 20000)
+	r.Require("callback_reentrant_calls", 100000)
+	r.Require("callback_nested_removerunes", 10000)
+	r.Require("big_cases", 1000)
+	r.Require("big_cases_4096_bytes_or_more", 300)
+	r.Require("big_cases_65536_bytes_or_more", 50)
+	r.Require("big_rune_across_multiple_of_256_or_more", 200)
+	r.Require("big_rune_across_multiple_of_4096_or_more", 100)
+	r.Require("big_sub_start_beyond_first_mark", 5000)
+	r.Require("big_cases_invalid_utf8", 50)
+	r.Require("long_ident_roundtrips", 2000)
+	r.Require("long_ident_across_256_or_more", 500)
+	r.Require("cold_start_cases", 24)
+	for _, k := range coldKinds {
+		r.Require("cold_start_first_call_"+k, 2)
+	}
 	r.Finish()
 }
